@@ -314,6 +314,8 @@ class Gen:
             stmts.append((kind, x, e))
             env[x] = t
         self.protected = set()
+        self.truth_tested = set()
+        self.in_loop_guard = False
         self.loop_depth = 0
         self.watch = []
         budget = r.randint(1, 2) if simple else r.randint(3, 7)
@@ -497,7 +499,10 @@ class Gen:
         for x, t in env.items():
             if N in t and len(t) > 1:
                 opts.append(("none", x))
-                if all(a == N or isinstance(a, tuple) for a in t) and not (self.self_cls is not None and x == 0):
+                # one truthiness test per local and function, outside loops (mypy keeps can_be_true/can_be_false
+                # flags on the narrowed type that a second test would observe)
+                if all(a == N or isinstance(a, tuple) for a in t) and not (self.self_cls is not None and x == 0) \
+                        and self.loop_depth == 0 and not self.in_loop_guard and x not in self.truth_tested:
                     opts.append(("truth", x))
             if t == OBJ:
                 opts.append(("none", x))
@@ -518,6 +523,7 @@ class Gen:
             # `if x:` — the true branch loses None, the false branch keeps the whole type
             e1 = dict(env)
             e1[x] = tuple(a for a in t if a != N)
+            self.truth_tested.add(x)
             self.stat("narrow-truthiness")
             return (("var", x), e1, dict(env))
         if o[0] == "none":
@@ -800,7 +806,9 @@ class Gen:
         base_env = {x: self.decl[x] for x in env}
         cond, et = counter, base_env
         if r.random() < 0.5:
+            self.in_loop_guard = True
             c = self.narrow_cond(base_env)
+            self.in_loop_guard = False
             if c is not None and c[1] is not None:
                 c0 = ("not", ("not", c[0])) if c[0][0] == "var" else c[0]
                 cond, et = ("and", c0, counter), c[1]
